@@ -1,6 +1,8 @@
 import WcModel.Driver.Proto
 import WcModel.Driver.Parse
 import WcModel.Model.Norm
+import WcModel.Model.Split
+import WcModel.Model.Compile
 /-
   Driver commands of the list level (C20 norm, C11/C07 loops, WcSplit, C19 cache).
   `handlers` is looked up by `Main.dispatch`.
@@ -39,7 +41,165 @@ def handleNorm : List String → Option String
     | .error e => pure s!"err {errName e}"
   | _ => none
 
+/-- `split <flags> <pattern>` → `ok <piece> <piece>…` (`WcSplit(pattern, flags).split()`) -/
+def handleSplit : List String → Option String
+  | [fl, p] => do
+    let flags ← fl.toNat?
+    let pat ← decStr p
+    let pieces := Split.wcSplit (Split.Cfg.ofFlags (Flags.ofNat flags)) pat
+    pure ("ok " ++ " ".intercalate (pieces.map encStr))
+  | _ => none
+
+/-! ### the list loops (K4): `lists <api> <flags> <isBytes> <limit> <tagged fields…>`
+
+  api    : `tr` = `_wcparse.translate`, `cp` = `_wcparse.compile_pattern` (+ `_Match.match`),
+           `gl` = `Glob.__init__` pattern part (flags = what the caller hands to `Glob`)
+  fields : `P:<pat>` inclusion pattern, `X` = `exclude=` is given, `E:<pat>` exclusion pattern,
+           `B:<normalised pattern>:<count>:<item>,<item>…|?` brace expansion supplied by the harness
+           from the real bracex (`?` = too large to materialise, only the count is known),
+           `N:<name>:<char|->` unicodedata.lookup, `M:<name>` a name to match, `S:<0|1>` SCANDOTDIR.
+  reply  : `ok <pulls> <pos,…|-> <neg,…|-> <match bits|->` | `err <kind> <pulls>` | `missing-brace`
+-/
+
+structure Req where
+  pats : List (List Char) := []
+  hasExcl : Bool := false
+  excl : List (List Char) := []
+  braces : List (List Char × Nat × Option (List (List Char))) := []
+  names : List (List Char × Option Char) := []
+  subjects : List (List Char) := []
+  scandotdir : Bool := false
+
+def decList (s : String) : Option (List (List Char)) :=
+  if s = "-" then some [] else (s.splitOn ",").mapM decStr
+
+def encList (l : List (List Char)) : String :=
+  if l.isEmpty then "-" else ",".intercalate (l.map encStr)
+
+def addField (r : Req) (f : String) : Option Req :=
+  match f.splitOn ":" with
+  | ["P", p] => do let p ← decStr p; pure { r with pats := r.pats ++ [p] }
+  | ["X"] => pure { r with hasExcl := true }
+  | ["E", p] => do let p ← decStr p; pure { r with excl := r.excl ++ [p] }
+  | ["B", p, c, items] => do
+    let p ← decStr p
+    let c ← c.toNat?
+    if items = "?" then pure { r with braces := r.braces ++ [(p, c, none)] }
+    else do let its ← decList items; pure { r with braces := r.braces ++ [(p, c, some its)] }
+  | ["N", n, v] => do
+    let n ← decStr n
+    if v = "-" then pure { r with names := r.names ++ [(n, none)] } else
+      match ← decStr v with
+      | [c] => pure { r with names := r.names ++ [(n, some c)] }
+      | _ => none
+  | ["M", n] => do let n ← decStr n; pure { r with subjects := r.subjects ++ [n] }
+  | ["S", b] => do let b ← decBool b; pure { r with scandotdir := b }
+  | _ => none
+
+/-- a compiled pattern in the driver: regex text, AST (if well-formed), or the parse error -/
+structure CR where
+  text : List Char
+  re : Option Re
+  bad : Bool := false
+
+def normCfgOf (isBytes : Bool) (fl : Flags) (names : List (List Char × Option Char)) : Norm.Cfg :=
+  { isBytes := isBytes, normalize := !isUnixStyle fl, raw := fl.rawchars,
+    lookup := fun n => (names.lookup n).join }
+
+/-- the external world of the loops, from the request: real bracex semantics (the count is
+    checked against the limit before anything is yielded) -/
+def extOf (isBytes : Bool) (r : Req) : Compile.Ext CR where
+  norm := fun fl p => Norm.normPattern (normCfgOf isBytes fl r.names) p
+  brace := fun p l =>
+    match r.braces.lookup p with
+    | some (c, items) =>
+      if 0 < l ∧ l < (c : Int) then ⟨[], true⟩ else ⟨items.getD [], false⟩
+    | none => ⟨[p], false⟩
+  split := fun fl e => Split.wcSplit (Split.Cfg.ofFlags fl) e
+  tilde := fun _ e => e
+  parse := fun fl p =>
+    let cfg := Cfg.ofFlags isBytes fl
+    match parseItems cfg (winDrive cfg) p with
+    | .ok parsed => { text := parsed.render, re := parsed.toRe }
+    | .error _ => { text := [], re := none, bad := true }
+  noDir := fun unix => if unix then { text := Frag.noNixDir.render, re := some Frag.noNixDir }
+                       else { text := Frag.noWinDir.render, re := some Frag.noWinDir }
+
+/-- every normalised pattern that the loop will hand to bracex has a table entry with items
+    whenever the model needs the items -/
+def bracesCovered (isBytes : Bool) (r : Req) (fl : Flags) (ps : List (List Char)) : Bool :=
+  !fl.brace || ps.all fun p =>
+    match Norm.normPattern (normCfgOf isBytes fl r.names) p with
+    | .ok q => (r.braces.lookup q).isSome
+    | .error _ => true
+
+/-- `glob._flag_transform` (host = the generated platform) -/
+def globFlagTransform (f : Flags) : Flags :=
+  let f := if f.forceunix && f.forcewin then { f with forceunix := false, forcewin := false } else f
+  let f := { f with pathname := true, translate := false, anchor := false, noGlobstarCapture := false }
+  if f.realpath then
+    (if hostIsWindows then { f with forceunix := false, forcewin := true } else { f with forcewin := false })
+  else f
+
+/-- the flag juggling at the top of `Glob.__init__` -/
+def globCfgOf (flags : Nat) (hasExcl scandotdir : Bool) (limit : Int) : Compile.GlobCfg :=
+  let f0 := Flags.ofNat flags
+  let f1 := if hasExcl then Compile.noNegateFlags f0 else f0
+  let nounique := f1.nounique
+  let negateall := f1.negateall
+  let nodir := f1.nodir
+  let f2 := globFlagTransform { f1 with negateall := false, nodir := false, realpath := true }
+  let f3 := if !scandotdir && !f2.nodotdir then { f2 with nodotdir := true } else f2
+  { flags := f3, negateall := negateall, nodir := nodir, nounique := nounique, limit := limit }
+
+def errKind : Compile.Err → String
+  | .patternLimit => "PatternLimit"
+  | .norm e => errName e
+
+def decInt (s : String) : Option Int :=
+  match s.toList with
+  | '-' :: r => (String.ofList r).toNat?.map fun n => -(n : Int)
+  | _ => s.toNat?.map fun n => (n : Int)
+
+def matchBits (pos neg : List CR) (subjects : List (List Char)) : String :=
+  if subjects.isEmpty then "-" else
+  String.ofList (subjects.map fun n =>
+    if Compile.matchPN (fun (r : CR) (n : List Char) => match r.re with
+        | some re => re.fullmatch n
+        | none => false) pos neg n then '1' else '0')
+
+def handleLists : List String → Option String
+  | api :: fl :: b :: lim :: fields => do
+    let flags ← fl.toNat?
+    let isBytes ← decBool b
+    let limit ← decInt lim
+    let r ← fields.foldlM addField ({} : Req)
+    let x := extOf isBytes r
+    let excl := if r.hasExcl then some r.excl else none
+    let f := Flags.ofNat flags
+    if api = "gl" then
+      let g := globCfgOf flags r.hasExcl r.scandotdir limit
+      if !(bracesCovered isBytes r g.flags (r.pats ++ r.excl)) then pure "missing-brace" else
+      match Compile.globPatterns x g r.pats excl with
+      | .error (e, k) => pure s!"err {errKind e} {k}"
+      | .ok o =>
+        if o.neg.any (·.bad) then pure "err ValueError 0" else
+        pure s!"ok {o.pulls} {encList (o.pos.map fun p => (if p.gstar then ['G'] else ['g']) ++ p.text)} {encList (o.neg.map (·.text))} -"
+    else
+      let fT := if api = "tr" then { f with translate := true } else f
+      let fE := Compile.negFlags (Compile.noNegateFlags fT)
+      let fM := if r.hasExcl then Compile.noNegateFlags fT else fT
+      if !(bracesCovered isBytes r fM r.pats && bracesCovered isBytes r fE r.excl) then pure "missing-brace" else
+      let res := if api = "tr" then Compile.translate x f limit r.pats excl
+                 else Compile.compilePattern x f limit r.pats excl
+      match res with
+      | .error (e, k) => pure s!"err {errKind e} {k}"
+      | .ok o =>
+        if (o.pos ++ o.neg).any (·.bad) then pure "err ValueError 0" else
+        pure s!"ok {o.pulls} {encList (o.pos.map (·.text))} {encList (o.neg.map (·.text))} {matchBits o.pos o.neg r.subjects}"
+  | _ => none
+
 def handlers : List (String × (List String → Option String)) :=
-  [("norm", handleNorm)]
+  [("norm", handleNorm), ("split", handleSplit), ("lists", handleLists)]
 
 end WcModel.Driver.Lists
